@@ -905,7 +905,7 @@ def _lenof(ev, node):
     lst = ev.e(node.args[0])
     if isinstance(lst, AList) and lst.keep is None:
         return SInt(lst.n)
-    if isinstance(lst, Ref) and isinstance(ev.heap[lst.oid], ListP):
+    if isinstance(lst, Ref) and isinstance(ev.heap[lst.oid], (ListP, DictP, SetP)):
         return len(ev.heap[lst.oid].items)
     if isinstance(lst, Ref) and isinstance(ev.heap[lst.oid], SeriesP):
         return SInt(ev.heap[lst.oid].length)
@@ -1025,3 +1025,8 @@ def _field0(ev, node):
     if t.sort() == z3.IntSort():
         return concretize(SInt(t))
     return wrap_bool(t)
+
+
+@specfn("NextId")
+def _nextid(ev, node):
+    return concretize(SInt(ev.heap[ev.e(node.args[0]).oid].next_id))
